@@ -459,6 +459,20 @@ def chains_to_super(fn: ast.FunctionDef, method: str, star_args=True, ci: Option
     if not via:
         return False, f"no call to super().{method}"
     ok = cfg.must_pass_through([cfg.exit.id], via)
+    if ok and star_args:
+        # what is forwarded is what was received: the *args / **kwargs names are not re-bound or edited in place
+        # (a filtered copy bound to the same name hides from the base check the very arguments it has to see)
+        names = {x for x in (va, kw) if x}
+        for x in ast.walk(fn):
+            alt = None
+            if isinstance(x, ast.Name) and isinstance(x.ctx, (ast.Store, ast.Del)) and x.id in names:
+                alt = x.id
+            elif isinstance(x, ast.Subscript) and isinstance(x.ctx, (ast.Store, ast.Del)) and isinstance(x.value, ast.Name) and x.value.id in names:
+                alt = x.value.id
+            elif isinstance(x, ast.Call) and isinstance(x.func, ast.Attribute) and isinstance(x.func.value, ast.Name) and x.func.value.id in names and x.func.attr in ("pop", "popitem", "update", "clear", "setdefault", "remove", "append", "extend", "insert", "sort", "reverse", "__setitem__", "__delitem__"):
+                alt = x.func.value.id
+            if alt is not None:
+                return False, f"`{alt}` is re-bound / edited (line {x.lineno}) before being forwarded to super().{method}: the inherited check no longer sees the arguments the constructor received"
     return ok, "" if ok else f"a path returns normally without calling super().{method}"
 
 
@@ -1190,3 +1204,40 @@ def s_r6c_children_suppliable(schema: Schema, rep: Report):
                     break
             rep.check("S-R6c", f"{ci.name}.validate_args:{k}:can-be-supplied", possible, f"every combination of the tested children in which `{k}` is supplied is refused by {ci.name}.validate_args: the declared child {k.upper()} can never be built, written or read" if not possible else "", loc(ci, fn0))
     rep.unit("children_tested_by_overrides", n)
+
+
+def s_r6d_route_independent_constraints(schema: Schema, rep: Report):
+    """validate_args runs BEFORE the children are converted: on the parse route its kwargs hold the text of the
+    document, on the keyword route whatever the caller passed - a constraint may only depend on what both share"""
+    rep.rule("S-R6d", "constraints in validate_args overrides are independent of the construction route: a kwargs value is only tested for presence / None / equality with a token - never ordered (< <= > >=), subtracted or otherwise computed with: the parser hands validate_args the wire TEXT (dates with offsets, decimals with either separator) where the caller hands native values, so an ordering that is right for one route rejects (or admits) on the other - and a written instance is refused when read back")
+    n = 0
+    for ci, fn in validate_overrides(schema):
+        kw = fn.args.kwarg.arg if fn.args.kwarg else None
+        if not kw:
+            continue
+        n += 1
+        # locals bound to kwargs values
+        vals = set()
+        for st in ast.walk(fn):
+            if isinstance(st, ast.Assign) and len(st.targets) == 1 and isinstance(st.targets[0], ast.Name):
+                v = st.value
+                if isinstance(v, ast.Call) and isinstance(v.func, ast.Attribute) and v.func.attr in ("get", "pop") and isinstance(v.func.value, ast.Name) and v.func.value.id == kw:
+                    vals.add(st.targets[0].id)
+                elif isinstance(v, ast.Subscript) and isinstance(v.value, ast.Name) and v.value.id == kw:
+                    vals.add(st.targets[0].id)
+
+        def is_val(e):
+            if isinstance(e, ast.Name) and e.id in vals:
+                return True
+            if isinstance(e, ast.Call) and isinstance(e.func, ast.Attribute) and e.func.attr in ("get", "pop") and isinstance(e.func.value, ast.Name) and e.func.value.id == kw:
+                return True
+            return isinstance(e, ast.Subscript) and isinstance(e.value, ast.Name) and e.value.id == kw
+
+        bad = None
+        for x in ast.walk(fn):
+            if isinstance(x, ast.Compare) and any(isinstance(o, (ast.Lt, ast.LtE, ast.Gt, ast.GtE)) for o in x.ops) and any(is_val(e) for e in [x.left] + list(x.comparators)):
+                bad = bad or x
+            elif isinstance(x, ast.BinOp) and isinstance(x.op, (ast.Sub, ast.Add, ast.Mult, ast.Div)) and (is_val(x.left) or is_val(x.right)) and not (isinstance(x.left, ast.Constant) and isinstance(x.left.value, str)):
+                bad = bad or x
+        rep.check("S-R6d", f"{ci.name}.validate_args:route-independent", bad is None, f"`{text(bad)[:60] if bad is not None else ''}` orders / computes with a kwargs value: from the parser that value is the document's text, from a caller a native object - the comparison means something else on each route (dates with different offsets, '9' > '10'), so an instance that was accepted and written can be refused when read back" if bad is not None else "", loc(ci, bad if bad is not None else fn))
+    rep.floor("S-R6d", n, 10, "validate_args overrides with **kwargs")
